@@ -647,6 +647,12 @@ class C10(Suite):
                 for lim in (None, len(b), max(len(b) - 1, 0)):
                     yield {"op": "lib", "m": name, "mode": mode, "limit": lim, "n": len(b),
                            "chunks": [(b + tail).hex()]}
+                # followed by octets the element's own inner grammar would accept if it did not stop at its
+                # boundary: path-segment-like octets, a copy of the element itself, a run of printable octets
+                for tail in (b"\x20\x02\x24\x01", b, b"\xc1\xc2\xc3\xc4\xc5\xc6\xc7\xc8\xc9\xca\xcb"):
+                    if tail:
+                        yield {"op": "lib", "m": name, "mode": mode, "limit": None, "n": len(b),
+                               "chunks": [(b + tail).hex()]}
         for name in sorted(byname):
             encs = byname[name]
             first = [x for x in encs if x[1]]
@@ -740,6 +746,8 @@ class C10(Suite):
         if (not why and out == "ok" and c.get("n") is not None and sent < c["n"]
                 and (c["limit"] is None or c["limit"] >= c["n"])
                 and all(len(x) > 0 for x in c["chunks"])
+                and (len(c["chunks"]) == 1 or c["m"] not in L.SHARED)   # service parsers may take a no-input
+                                                                        # "minimal reply" exit when input pauses
                 and L.self_delimiting(c["m"], all_input[:c["n"]])):
             # every count / size / length field of a well-formed element is honoured exactly: the counted
             # sub-grammars ran as often as their counts say iff the whole element was consumed
